@@ -107,6 +107,8 @@ func run(c *hlib.Ctx) {
 	runVecs(c, n)
 	runPolysF(c, n)
 	runBicg(c, n)
+	runLsq(c, n)
+	runCubicInflection(c, n)
 }
 
 func emit(c *hlib.Ctx, m mode, kind string, args string, impl func() string) {
